@@ -425,12 +425,15 @@ def _leaves(tier, seed):
                         dd = 1
                     out.append(dict(shape=sh, ranks=rk, pat=pat, depth=dd, partners=[['intB', 2], ['gen', 1]], seed=seed,
                                     nums=NUMS if dd <= 2 else NUMS[:4]))
+    for sh, rk in (([7, 5], [1, 4, 1]), ([2, 9, 3], [1, 2, 5, 1]), ([4, 1, 6, 2], [1, 3, 3, 2, 1]), ([2] * 5, [1, 2, 3, 3, 2, 1])):
+        for pat in pats:
+            out.append(dict(shape=sh, ranks=rk, pat=pat, depth=1, partners=[['intB', 2], ['gen', 1]], seed=seed, nums=NUMS))
     return out
 
 
 def strata(tier, seed):
     ls = _leaves(tier, seed)
-    for d in (2, 3, 4):
+    for d in (2, 3, 4, 5):
         sub = [l for l in ls if len(l['shape']) == d]
         yield Stratum('expression trees, d=%d leaves' % d, sub, 'leaf', size=len(sub), chunk=1,
                       bounds={'depth': sorted({l['depth'] for l in sub}), 'leaves': len(sub)})
